@@ -47,6 +47,7 @@ pub fn generate(seed: u64, fault_free: bool) -> FreezeOut {
         ("l0", Ex::List(vec![int(1), int(2), int(3)])),
         ("myop", myop),
         ("helper", Ex::Lambda(vec![lv("h")], Box::new(bin(var("h"), "+", var("n1"))))),
+        ("ty", var("int")),
     ] {
         if g.push("session-var", declare(name, e), vec![]).is_err() {
             return finish(g, &fg, nontrivial);
@@ -58,6 +59,7 @@ pub fn generate(seed: u64, fault_free: bool) -> FreezeOut {
         lists: Vec::new(),
         ro_lists: vec!["l0".into()],
         ops: vec!["myop".into()],
+        types: vec!["ty".into()],
         funcs: vec![("helper".into(), 1, 1)],
         loop_depth: 0,
         in_lambda: false,
@@ -86,7 +88,7 @@ pub fn generate(seed: u64, fault_free: bool) -> FreezeOut {
     let mut reassigned = false;
     let mut out_limited = false;
     for _ in 0..n_ops {
-        let choice = fg.rng.weighted(&[10, 10, 5, 3, 3, 2, 2, 2, 2]);
+        let choice = fg.rng.weighted(&[10, 10, 5, 3, 3, 2, 2, 2, 2, 3]);
         let r = match choice {
             0 | 1 => {
                 // call a twin (or both) on the same arguments
@@ -189,6 +191,12 @@ pub fn generate(seed: u64, fault_free: bool) -> FreezeOut {
                 };
                 let lam = Ex::Lambda(vec![lv("z")], Box::new(body));
                 g.push("freeze-outer-write", declare(&name, Ex::Freeze(Box::new(lam))), vec![])
+            }
+            9 => {
+                // reassign the type variable used by annotations inside the lambdas
+                reassigned = true;
+                let t = *fg.rng.pick(&["number", "anything", "str", "int", "list"]);
+                g.push("reassign-type", Ex::Assign(false, Box::new(lv("ty")), Box::new(var(t))), vec![])
             }
             _ => {
                 // another pair of twins later in the session (after some reassignments)
